@@ -254,6 +254,7 @@ an existing entry is deleted first; the code then tests `identifier in self` a s
 only if the text held the identifier twice) and in that case deletes again and re-indexes. -/
 def fastqSet (f : Fastq) (id seq : Str) (qs : List Int) : Except Err Fastq :=
   if seq.length ≠ qs.length then .error .valueError else
+  if seq.isEmpty then .error .valueError else      -- repaired: an empty sequence is rejected
   let id := normHeader id
   let del : Except Err Fastq := if (f.entries.lookup id).isSome then fastqDel f id else .ok f
   match del with
